@@ -211,8 +211,18 @@ def case_decode(case):
     address, frame, exc = _mods()
     bits, v = case["bits"], case["v"]
     out = []
-    f = frame.ForwardFrame(bits, v)
-    where = "%d-bit %#x" % (bits, v)
+    # the frame may be a ForwardFrame (what drivers and commands build), a plain Frame, or the result of
+    # concatenating two frames - "any 16- or 24-bit frame"
+    form = case.get("form", (v * 7 + (v >> 9)) % 4)
+    if form == 1:
+        f = frame.Frame(bits, v)
+    elif form == 2:
+        f = frame.Frame(8, v >> (bits - 8)) + frame.Frame(bits - 8, v & ((1 << (bits - 8)) - 1))
+    elif form == 3:
+        f = frame.ForwardFrame(bits, list(v.to_bytes(bits // 8, "big")))
+    else:
+        f = frame.ForwardFrame(bits, v)
+    where = "%d-bit %#x (%s)" % (bits, v, ["ForwardFrame", "plain Frame", "Frame + Frame", "ForwardFrame from bytes"][form])
     try:
         r = address.from_frame(f)
         exp = ref_gear_addr(v >> 9) if bits == 16 else ref_device_addr(v)
